@@ -40,7 +40,9 @@ def main():
         ver = json.load(open(vf))
         meta = json.load(open(os.path.join(d, "meta.json")))
         pid = meta.get("property") or os.path.basename(os.path.dirname(d)).replace("out-", "")
-        rnd = "r2-" if "/seeds2/" in d else ("r3-" if "/seeds3/" in d else ("r4-" if "/seeds4/" in d else ""))
+        import re as _re
+        mm = _re.search(r"/seeds(\d+)/", d)
+        rnd = ("r%s-" % mm.group(1)) if mm else ""
         name = "%s-%s%s" % (pid, rnd, os.path.basename(d))
         dst = os.path.join(VERIF, "seeded", name)
         if not ver.get("ok"):
